@@ -3,6 +3,7 @@ use crate::common::*;
 use crate::gen::*;
 use crate::sk::*;
 use crate::stat::*;
+use rand::Rng as _;
 use serde_json::json;
 
 pub fn run(rep: &mut Report) {
@@ -32,7 +33,8 @@ pub fn run(rep: &mut Report) {
                 if is_rev && m > rep.tier.pick(1000, 6000) {
                     m = rep.tier.pick(1000, 6000);
                 }
-                let cell = format!("{}/ratio={}/{}/m={}", kind.name(), rname, sname, m);
+                let reuse = (hsel >> 16) % 2 == 0;
+                let cell = format!("{}/ratio={}/{}/m={}{}", kind.name(), rname, sname, m, if reuse { "/reused" } else { "" });
                 if !rep.want(&cell) {
                     continue;
                 }
@@ -51,15 +53,29 @@ pub fn run(rep: &mut Report) {
                     let mut b: Vec<u64> = ids[ao..].to_vec();
                     shuffle(&mut a, rng);
                     shuffle(&mut b, rng);
-                    let mut ska = make_usk(kind, m);
-                    ska.sketch_slice(&a);
-                    let mut skb = make_usk(kind, m);
-                    for x in &b {
-                        skb.sketch(*x);
-                    }
-                    skb.finish();
-                    let ba = ska.bits();
-                    let bb = skb.bits();
+                    let (ba, bb) = if reuse {
+                        let mut sk = make_usk(kind, m);
+                        let njunk = if rng.random_range(0..2) == 0 { 2 * m + 5 } else { 1 };
+                        sk.sketch_slice(&fresh_ids(rng, njunk, 0));
+                        sk.reinit();
+                        sk.sketch_slice(&a);
+                        let ba = sk.bits();
+                        sk.reinit();
+                        for x in &b {
+                            sk.sketch(*x);
+                        }
+                        sk.finish();
+                        (ba, sk.bits())
+                    } else {
+                        let mut ska = make_usk(kind, m);
+                        ska.sketch_slice(&a);
+                        let mut skb = make_usk(kind, m);
+                        for x in &b {
+                            skb.sketch(*x);
+                        }
+                        skb.finish();
+                        (ska.bits(), skb.bits())
+                    };
                     for v in 0..3 {
                         let eq = (0..m).filter(|&p| ba[v * m + p] == bb[v * m + p]).count();
                         out[v] = eq as f64 / m as f64;
